@@ -21,11 +21,14 @@ pub struct SchemaOpts {
     pub allow_enum: bool,
     pub allow_tags: bool,
     pub allow_ext: bool,
+    /// allow an entity type to be named like a primitive or extension type (`String`, `Long`, `Bool`, `ipaddr`):
+    /// unqualified uses of that name then denote the entity type and the built-in must be written `__cedar::…`
+    pub shadow: bool,
 }
 
 impl Default for SchemaOpts {
     fn default() -> Self {
-        SchemaOpts { multi_ns: true, chains: false, allow_enum: true, allow_tags: true, allow_ext: true }
+        SchemaOpts { multi_ns: true, chains: false, allow_enum: true, allow_tags: true, allow_ext: true, shadow: false }
     }
 }
 
@@ -68,6 +71,11 @@ pub fn gen_schema(t: &mut Tape, o: &SchemaOpts) -> RSchema {
             _ => ns_main,
         };
         names.push(q(ns, ET_NAMES[perm[i]]));
+    }
+    if o.shadow && t.bool_p(1, 3) {
+        let i = t.upto(names.len());
+        let (ns, _) = split_name(&names[i]);
+        names[i] = q(&ns, *t.pick(&["String", "Long", "Bool", "ipaddr"]));
     }
     let enum_ix = if o.allow_enum && t.bool_p(1, 3) { Some(n_et - 1) } else { None };
     let normal: Vec<String> = names.iter().enumerate().filter(|(i, _)| Some(*i) != enum_ix).map(|(_, n)| n.clone()).collect();
